@@ -12,5 +12,5 @@ Definition xcase := (xml * list (string * string) * bool)%type.
 Definition check_x (c : xcase) : bool :=
   match c with
   | (x, fails, expected) =>
-    Bool.eqb (String.eqb (xtag x) (fst xml_root) && xvalid (pm_of fails) xml_schema (XCls (snd xml_root)) x) expected
+    Bool.eqb (String.eqb (xtag x) (fst xml_root) && xvalid (leaf_full (pm_of fails)) xml_schema (XCls (snd xml_root)) x) expected
   end.
